@@ -82,6 +82,7 @@ class Sess:
         self.pings = []                  # times at which a PING was received
         self.pongs = []                  # times at which the client sent a PONG
         self.ping_pending = False
+        self.pongs_unsolicited = []      # times of PONGs sent while no PING was outstanding
         self.vanished = False
         self.autopong = False
         self.autopoll = False
@@ -385,6 +386,8 @@ class Exec:
         return r
 
     def _send_pong(self, s):
+        if not s.ping_pending:
+            s.pongs_unsolicited.append(self.now)
         s.ping_pending = False
         s.pongs.append(self.now)
         if s.main_ws is not None:
@@ -529,6 +532,10 @@ class Exec:
                               'raw': raw, 'req': r, 'declared': declared, 'size': len(wire),
                               'det': self._det, 'step': len(self.actions)})
         if pkts and any(t == 3 for t, _ in pkts):
+            # every PONG beyond the one that answers an outstanding PING starts a PING timer of
+            # its own on the server (possibly later than now, if handlers take time)
+            npong = sum(1 for t, _ in pkts if t == 3)
+            s.pongs_unsolicited.extend([self.now] * (npong - (1 if s.ping_pending else 0)))
             s.ping_pending = False
             # the PONG counts for the model only if the server certainly reads it: whole body
             # declared, within the limits, nothing before it that ends the processing
@@ -592,6 +599,8 @@ class Exec:
                               'size': len(frame), 'det': self._det,
                               'step': len(self.actions)})
         if pt == 3 and conn is s.main_ws:
+            if not s.ping_pending:
+                s.pongs_unsolicited.append(self.now)
             s.ping_pending = False
             s.pongs.append(self.now)
 
